@@ -1151,7 +1151,7 @@ theorem DInv.bound (hM : TreeL g root M) (h : DInv g root M out st) :
 
 /-- with an empty stack every tree edge has been listed -/
 theorem DInv.finished (hM : TreeL g root M) (h : DInv g root M out []) :
-    out.length + 1 = g.n := by
+    out.length + 1 = g.n ∧ ∀ pc ∈ M, pc ∈ out := by
   obtain ⟨hnd, hlt⟩ := h.vis_nodup hM.root_lt
   have hall : ∀ v ∈ [root] ++ M.map (·.2), v ∈ [root] ++ out.map (·.2) := by
     refine spanOK_induct g (fun v => v ∈ [root] ++ out.map (·.2)) M [root] hM.ok ?_ ?_
@@ -1171,7 +1171,11 @@ theorem DInv.finished (hM : TreeL g root M) (h : DInv g root M out []) :
     obtain ⟨v, hv, hvs⟩ := nodup_lt_missing (l := [root] ++ out.map (·.2)) (n := g.n) (by omega)
     exact hvs (hall v (hM.full v hv))
   simp only [List.length_append, List.length_cons, List.length_nil, List.length_map] at hle hge
-  omega
+  refine ⟨by omega, fun pc hpc => ?_⟩
+  rcases h.complete pc hpc with hc | hc | hc
+  · exact hc
+  · simp at hc
+  · exact absurd (hall _ (spanOK_parent_mem g M [root] hM.ok pc hpc)) hc
 
 /-- one iteration: the top entry `(c, (p, c))` is listed and the children `nb` of `c` are
 pushed -/
@@ -1311,7 +1315,8 @@ theorem spanDfs_spec {g t : G} {root : Nat} {M : List (Nat × Nat)} (hM : TreeL 
     ∀ (fuel : Nat) (out : List (Nat × Nat)) (st : List (Nat × Option (Nat × Nat))),
       DInv g root M out st → g.n ≤ out.length + fuel →
       SpanOK g [root] (spanDfs t ord fuel out st) ∧
-        (spanDfs t ord fuel out st).length + 1 = g.n := by
+        (spanDfs t ord fuel out st).length + 1 = g.n ∧
+        (∀ pc, pc ∈ spanDfs t ord fuel out st ↔ pc ∈ M) := by
   intro fuel
   induction fuel with
   | zero =>
@@ -1324,7 +1329,7 @@ theorem spanDfs_spec {g t : G} {root : Nat} {M : List (Nat × Nat)} (hM : TreeL 
     | nil =>
       have : spanDfs t ord (fuel + 1) out [] = out := by unfold spanDfs; rfl
       rw [this]
-      exact ⟨h.ok, h.finished hM⟩
+      exact ⟨h.ok, (h.finished hM).1, fun pc => ⟨h.sub pc, (h.finished hM).2 pc⟩⟩
     | cons x st' =>
       obtain ⟨c, inter⟩ := x
       obtain ⟨p, hp1, hpM, _, _⟩ := h.entry (c, inter) (by simp)
@@ -1360,16 +1365,34 @@ theorem mem_adj_tree (M : List (Nat × Nat)) (q u : Nat) :
     · have := (rawMax_ge M _ h).1
       exact ⟨by simp only at this ⊢; omega, _, h, Or.inr rfl⟩
 
+/-- two parent-before-child listings of the same set of pairs have the same depth table -/
+theorem depOf_eq_of_same_tree (g : G) (root : Nat) (L1 L2 : List (Nat × Nat))
+    (h1 : SpanOK g [root] L1) (h2 : SpanOK g [root] L2) (hsub : ∀ pc ∈ L1, pc ∈ L2) :
+    ∀ v ∈ [root] ++ L1.map (·.2), depOf root L1 v = depOf root L2 v := by
+  refine spanOK_induct g (fun v => depOf root L1 v = depOf root L2 v) L1 [root] h1 ?_ ?_
+  · intro pc hpc hp
+    have r1 := depthsFrom_rec g L1 [root] [(root, 0)] h1 rfl pc hpc
+    have r2 := depthsFrom_rec g L2 [root] [(root, 0)] h2 rfl pc (hsub pc hpc)
+    simp only [depOf, spanDepths_eq] at hp ⊢
+    rw [r1, r2, hp]
+  · intro v hv
+    simp only [List.mem_cons, List.not_mem_nil, or_false] at hv
+    subst hv
+    simp only [depOf, spanDepths_root]
+
 /-- **`get_rooted_minimum_span` for arbitrary iteration orders.**  For a well-formed connected
 graph and a root `< n` the call does not raise, and whatever the orders `ord1`, `ord2` in
-which the two loops iterate their sets, the result is accepted by `validSpan`. -/
-theorem rootedSpan_valid (g : G) (hwf : g.WF) (ord1 ord2 : Nat → List Nat → List Nat)
+which the two loops iterate their sets, the result is accepted by `validMinSpan`: it lists a
+breadth-first spanning tree rooted at `root`, parent before child. -/
+theorem rootedSpan_minValid (g : G) (hwf : g.WF) (ord1 ord2 : Nat → List Nat → List Nat)
     (h1 : ∀ q l, (ord1 q l).Perm l) (h2 : ∀ q l, (ord2 q l).Perm l)
     (root : Nat) (hroot : root < g.n) (hconn : ∀ v, v < g.n → Reach g root v) :
-    ∃ res, g.rootedSpan ord1 ord2 root = some res ∧ validSpan g root res = true := by
+    ∃ res, g.rootedSpan ord1 ord2 root = some res ∧ validMinSpan g root res = true := by
   obtain ⟨hok, hlen⟩ := spanBfs_spec g hwf ord1 h1 root hroot hconn g.n [] [] [root] [root]
     (bInv_init g root) (by simp)
-  generalize hMdef : spanBfs g ord1 g.n [] [root] [root] = M at hok hlen
+  have hdepth := spanBfs_depth g hwf ord1 h1 root hroot hconn g.n [] [] [root] [root]
+    (bInv_init g root) (bdInv_init g root) (by simp)
+  generalize hMdef : spanBfs g ord1 g.n [] [root] [root] = M at hok hlen hdepth
   have hM : TreeL g root M := ⟨hok, hlen, hroot⟩
   have hmk : mk? M none = some ⟨rawMax M + 1, (M.map norm).eraseDups⟩ := by
     rw [mk?_none_some_iff]
@@ -1405,11 +1428,32 @@ theorem rootedSpan_valid (g : G) (hwf : g.WF) (ord1 ord2 : Nat → List Nat → 
         · exact h
         · exact absurd rfl (hM.child_ne_root h)
       · exact Or.inl
-    obtain ⟨r1, r2⟩ := spanDfs_spec hM (mem_adj_tree M) ord2 h2 g.n [] _
+    obtain ⟨r1, r2, r3⟩ := spanDfs_spec hM (mem_adj_tree M) ord2 h2 g.n [] _
       (dInv_init hM _ (List.Pairwise.filter _ ((h2 root _).symm.nodup (G.nodup_adj _ root))) hnb)
       (by simp)
-    rw [validSpan_eq, Bool.and_eq_true, Bool.and_eq_true, sFold_iff, beq_iff_eq, decide_eq_true_eq]
-    exact ⟨⟨r2, hroot⟩, rfl, r1⟩
+    generalize spanDfs _ ord2 g.n [] _ = R at r1 r2 r3
+    rw [validMinSpan_iff]
+    refine ⟨?_, fun e he => ?_⟩
+    · rw [validSpan_eq, Bool.and_eq_true, Bool.and_eq_true, sFold_iff, beq_iff_eq,
+        decide_eq_true_eq]
+      exact ⟨⟨r2, hroot⟩, rfl, r1⟩
+    · have hdep := depOf_eq_of_same_tree g root M R hok r1 (fun pc hpc => (r3 pc).2 hpc)
+      have he' := hwf e he
+      have hed := g.hasEdge_of_mem hwf he
+      have e1 := hdep e.1 (hM.full e.1 (by omega))
+      have e2 := hdep e.2 (hM.full e.2 (by omega))
+      have d1 := hdepth e.1 e.2 (by omega) (by omega) hed
+      have d2 := hdepth e.2 e.1 (by omega) (by omega) (by rw [G.hasEdge_comm]; exact hed)
+      simp only [depOf] at e1 e2 d1 d2
+      omega
+
+/-- corollary: the result is accepted by `validSpan` -/
+theorem rootedSpan_valid (g : G) (hwf : g.WF) (ord1 ord2 : Nat → List Nat → List Nat)
+    (h1 : ∀ q l, (ord1 q l).Perm l) (h2 : ∀ q l, (ord2 q l).Perm l)
+    (root : Nat) (hroot : root < g.n) (hconn : ∀ v, v < g.n → Reach g root v) :
+    ∃ res, g.rootedSpan ord1 ord2 root = some res ∧ validSpan g root res = true := by
+  obtain ⟨res, hr, hv⟩ := rootedSpan_minValid g hwf ord1 ord2 h1 h2 root hroot hconn
+  exact ⟨res, hr, ((validMinSpan_iff g root res).1 hv).1⟩
 
 /-! ### non-vacuity -/
 section examples
